@@ -165,6 +165,11 @@ def step (s : St) (line : String) : St × String :=
     match typ.toNat?, parsePayload m, parseHex z, start.toNat?, parsePat pat with
     | some typ, some m, some z, some start, some pat => (s, corOp typ m z start pat)
     | _, _, _, _, _ => (s, "bad-op")
+  | ["corv", typ, m, z, start, pat, opts] =>
+    -- built with header options: what the header says has no part in the checksum verification
+    match typ.toNat?, parsePayload m, parseHex z, start.toNat?, parsePat pat, parseOpts opts with
+    | some typ, some m, some z, some start, some pat, some _ => (s, corOp typ m z start pat)
+    | _, _, _, _, _, _ => (s, "bad-op")
   | ["reset"] => (St.init, "ok")
   | "sub" :: id :: typ :: bc :: frm :: rest =>
     match id.toNat?, typ.toNat? with
